@@ -127,10 +127,20 @@ def _nested_pows(d, out):
     if isinstance(d, list) and d:
         if d[0] == "Pow" and d[1][0] == "Pow":
             out.append((d[1][1], d[1][2], d[2]))
+        if d[0] == "Mul":
+            for b, e in d[2]:          # a power inside a product is stored as a (base, exponent) pair
+                if b[0] == "Pow":
+                    out.append((b[1], b[2], e))
         for x in (d[1:] if isinstance(d[0], str) else d):
             if isinstance(x, list):
                 _nested_pows(x, out)
     return out
+
+
+def _contains(d, node):
+    if isinstance(d, list):
+        return d == node or any(_contains(x, node) for x in d)
+    return False
 
 
 def _is_number(d):
@@ -142,8 +152,9 @@ def m_refine_pow_abs(case, v):
     d = (v.detail or {}).get("dump")
     if not d or (v.detail or {}).get("op") not in ("refine", "simplify") or not v.detail.get("with_asm"):
         return False
+    got = v.detail.get("result")
     for b, k, n in _nested_pows(d, []):
-        if _is_number(k) and _is_number(n) and not (k[0] == "Integer" and int(k[1]) % 2 == 0):
+        if _is_number(k) and _is_number(n) and not (k[0] == "Integer" and int(k[1]) % 2 == 0) and _contains(got, ["Abs", b]):
             return True
     return False
 
@@ -187,8 +198,8 @@ class C35(ValueCheck):
         for op, w in self.OPS:
             stmts.append([op, R(0), R(1)] if w else [op, R(0)])
         res = self.run(stmts)
-        if is_exc(res[2]):
-            self.skip("assert_seen" if res[2].get("exc") == "VerifAssertFailure" else "declined:expr")
+        if is_exc(res[0]) or is_exc(res[2]):
+            self.skip("assert_seen" if is_exc(res[0], "VerifAssertFailure") else "declined:expr")
             return
         dump = B(res[2])
         if ar.dump_has(dump, ("Infty", "NaN")):
